@@ -133,7 +133,9 @@ _NOISE = [
     {'r_x': 0, 'r_y': 0, 'r_z': 1, 'deformation_name': 'XZZX', 'deformation_kwargs': {'deformation_axis': 'y'}},
 ]
 _SIZES_2D = [{'L_x': 2}, {'L_x': 3, 'L_y': 2}, {'L_x': 2, 'L_y': 3}]
-_SIZES_3D = [{'L_x': 2}, {'L_x': 3, 'L_y': 2, 'L_z': 2}, {'L_x': 2, 'L_y': 2, 'L_z': 3}]
+# prefixes of this list are the size axis: L_x only; L_z omitted with L_y != L_x (the default is L_x, not L_y);
+# all three given with L_z different; all three given with L_x different
+_SIZES_3D = [{'L_x': 2}, {'L_x': 2, 'L_y': 3}, {'L_x': 2, 'L_y': 2, 'L_z': 3}, {'L_x': 3, 'L_y': 2, 'L_z': 2}]
 FAMILIES = [
     {'code': 'Toric2DCode', 'dim': 2, 'sizes': _SIZES_2D, 'decoder': 'BeliefPropagationOSDDecoder',
      'dsets': [{'osd_order': 0}, {'osd_order': 3, 'max_bp_iter': 7}]},
